@@ -435,7 +435,9 @@ impl<'a> IntoIterator for &'a Label {
 
 impl fmt::Display for Label {
     fn fmt(&self, f: &mut fmt::Formatter<'_>) -> fmt::Result {
-        for ch in self.iter() {
+        for (i, ch) in self.iter().enumerate() {
+            // A leading dollar sign would start a control entry in a zone
+            // file.
             if ch == b' '
                 || ch == b'.'
                 || ch == b'\\'
@@ -443,6 +445,7 @@ impl fmt::Display for Label {
                 || ch == b';'
                 || ch == b'('
                 || ch == b')'
+                || (i == 0 && ch == b'$')
             {
                 write!(f, "\\{}", ch as char)?;
             } else if !(0x20..0x7F).contains(&ch) {
